@@ -5,12 +5,17 @@
     DQ <cap1> <cap2> <op>;…         → <ret>[<i>:<ev>,…];…  | <items1>/<cap1> <items2>/<cap2>
     T  <timeto> <polled>@<now>;…    → got <x> | timeout <now> | running      (timed get over a clock)
 
+    TQ <timeto> <cap> <round>|<round>|…   the polling loop with the queue: round = <op>,<op>,…@<now>
+                                    (operations of other threads before this poll; `-` = none)
+                                    → got <x> | timeout <now> | running, then [events] | queue
+
   queue ops   p<x> put   f<x> putForce   g get (blocking; `blocked` when empty)   n getNoWait
               t<k> getTimeout with k extra polls   x clear   c<cap> setCapacity   s size   k getCapacity
   double      p1_<x> p2_<x> f1_<x> f2_<x> g n t<k> x c<c1>_<c2> s s1 s2 k1 k2
   element 0 = nil.   events: a accepted, F failed, O overflowed, d delivered, c cleared, w swallowed
 -/
 import Golib.Queue.Seq
+import Golib.Queue.Timed
 import Driver.Common
 
 open Drv Queue
@@ -91,6 +96,13 @@ def parseTick (s : String) : Option Tick :=
   | [p, n] => do some ⟨← parseNat p, ← parseInt n⟩
   | _ => none
 
+def parseRound (s : String) : Option Round :=
+  match s.splitOn "@" with
+  | [ops, n] => do
+    let os ← if ops == "-" || ops == "" then some [] else (ops.splitOn ",").mapM parseOp
+    some ⟨os, ← parseInt n⟩
+  | _ => none
+
 def answer (line : String) : String :=
   match line.splitOn " " with
   | ["Q", cap, ops] =>
@@ -104,6 +116,16 @@ def answer (line : String) : String :=
     | some a, some b, some os =>
       let r := runDQ ⟨⟨[], a⟩, ⟨[], b⟩⟩ os []
       ";".intercalate r.2 ++ " | " ++ qShow r.1.q1 ++ " " ++ qShow r.1.q2
+    | _, _, _ => "bad-op"
+  | ["TQ", timeto, cap, rounds] =>
+    match parseInt timeto, parseInt cap, (rounds.splitOn "|").mapM parseRound with
+    | some tt, some c, some rs =>
+      let r := timedGetQ tt ⟨[], c⟩ rs
+      let res := match r.2.1 with
+        | some (.got x) => s!"got {x}"
+        | some (.timedOut t) => s!"timeout {t}"
+        | none => "running"
+      res ++ " [" ++ ",".intercalate (r.2.2.map evStr) ++ "] | " ++ qShow r.1
     | _, _, _ => "bad-op"
   | ["T", timeto, ticks] =>
     match parseInt timeto, parseOps parseTick ticks with
